@@ -34,7 +34,9 @@ CONSTANTS
     SleepToPrev,    \* sleep(ms) delays the request that FOLLOWS it (attached to the previous step)
     ExactMult,      \* name(n) yields exactly n steps
     UseWeights,     \* ring composition follows weight / gcd
-    RespCanPanic    \* C19: a response may escalate into a panic of the shot (must be FALSE)
+    RespCanPanic,   \* C19: a response may escalate into a panic of the shot (must be FALSE)
+    GrpcAbortOnStatus, \* negative control: the grpc gun ends the shot at ANY error status (documented: only an assertion does)
+    HtmlEscapes     \* the html templater escapes what it renders (FALSE: negative control)
 
 VARIABLE st
 
@@ -125,6 +127,25 @@ IterOf(c, nm) == IF UsedIn(c, nm) = {} THEN 0 ELSE CHOOSE i \in UsedIn(c, nm) : 
 
 Sources == {"users", "items"}
 SrcTag(s) == IF s = "users" THEN "r" ELSE "q"
+\* with `special` the rows of users end in a character html/template escapes: r0< r1< ...
+SrcTagC(c, src) == IF src = "users" /\ c.special THEN "r<" ELSE SrcTag(src)
+
+\* the gun kind of a case: "http" (http/scenario gun) or "grpc" (grpc/scenario gun).  Where the two guns differ:
+\*   - a failed step: http reports (status or 0, error, __EMPTY__); grpc reports the code it has (0 before the call,
+\*     400 for a payload that is no message, else the mapped gRPC status) without an error attached
+\*   - an error STATUS from the peer: grpc goes on with the next call unless an assert/response postprocessor objects
+\*     (the documentation: "upon assertion, further scenario execution is dropped"); there is no reply message then,
+\*     i.e. no request.<name>.postprocessor
+\*   - captured values: grpc has no extractors, request.<name>.postprocessor IS the reply message
+IsGrpc(s) == s.cs.gun = "grpc"
+
+\* the templater of a case: "text" (text/template) or "html" (html/template).  Where they differ: html/template
+\* HTML-escapes the values it renders (r0< -> r0&lt;) and renders a variable that is not there as NOTHING, where
+\* text/template writes "<no value>"
+EscV(tmpl, v) == IF tmpl # "html" \/ ~HtmlEscapes THEN v
+                 ELSE CASE v.t = "r<"      -> [v EXCEPT !.t = "r&lt;"]
+                        [] v.t = "novalue" -> NoVal
+                        [] OTHER           -> v
 
 FreshVars == [nm \in Names |-> [seen |-> FALSE, hasPre |-> FALSE, row |-> NoVal, hasPost |-> FALSE, tok |-> NoVal]]
 IdleInst  == [pc |-> "idle", sc |-> 0, steps |-> <<>>, pos |-> 0, vs |-> FreshVars,
@@ -151,7 +172,7 @@ Sample(s, i, proto, err) == [sc |-> ScName(s, i), step |-> Step(s, i).name, prot
 \* proto is the status that was RECEIVED (a failure after the response arrived: failed assertion, failing
 \* extractor, unreadable body) and 0 when there was no response (preprocessor / template / transport error)
 FailF(s, i, proto) ==
-    LET smp == Sample(s, i, proto, TRUE)
+    LET smp == Sample(s, i, proto, ~IsGrpc(s))
         last == Cur(s, i).pos >= Len(Cur(s, i).steps)
         goOn == ~StopOnFail /\ ~last      \* negative control: carry on with the next step
     IN [s EXCEPT !.samples = Append(@, smp),
@@ -194,16 +215,17 @@ PreF(s, i) ==
         isNext == d.pre.k = "next"
         raw  == IF isNext THEN s.ctr[own][it][d.pre.of] ELSE 0
         pre  == CASE d.pre.k = "none"    -> <<TRUE, FALSE, NoVal>>
-                  [] d.pre.k = "next"    -> <<TRUE, TRUE, Val(SrcTag(d.pre.of), raw % R)>>
-                  [] d.pre.k = "last"    -> <<TRUE, TRUE, Val(SrcTag(d.pre.of), R - 1)>>
-                  [] d.pre.k = "idx"     -> <<TRUE, TRUE, Val(SrcTag(d.pre.of), s.cs.idx % R)>>
+                  [] d.pre.k = "next"    -> <<TRUE, TRUE, Val(SrcTagC(s.cs, d.pre.of), raw % R)>>
+                  [] d.pre.k = "last"    -> <<TRUE, TRUE, Val(SrcTagC(s.cs, d.pre.of), R - 1)>>
+                  [] d.pre.k = "idx"     -> <<TRUE, TRUE, Val(SrcTagC(s.cs, d.pre.of), s.cs.idx % R)>>
                   [] d.pre.k = "from"    -> LET l == LookupPost(vs0, d.pre.of) IN <<l[1], l[1], l[2]>>
                   [] d.pre.k = "missing" -> <<FALSE, FALSE, NoVal>>
         s1   == IF isNext THEN [s EXCEPT !.ctr[own][it][d.pre.of] = @ + 1,
                                          !.handed = Append(@, [it |-> it, src |-> d.pre.of, n |-> raw])]
                 ELSE s
         vs1  == IF pre[2] THEN [vs0 EXCEPT ![nm].hasPre = TRUE, ![nm].row = pre[3]] ELSE vs0
-        rnd  == Render(vs1, d.use)
+        rnd0 == Render(vs1, d.use)
+        rnd  == <<rnd0[1], EscV(s.cs.tmpl, rnd0[2])>>      \* values pass through the request's templater
         s2   == [s1 EXCEPT !.inst[i].vs = vs1]
     IN IF ~pre[1] \/ ~rnd[1] THEN FailF(s2, i, 0)
        ELSE [s2 EXCEPT !.inst[i].pc = "send",
@@ -215,14 +237,17 @@ SendF(s, i) ==
     LET me == Cur(s, i)
         k1 == s.k + 1
         sc == s.cs.script
-        hit == sc.at = k1
+        \* scripts act on arrival number k - or ("rowmod", for runs with several instances, where arrival numbers mean
+        \* nothing) on the CONTENT of the request: the data-source row rendered into the URI has parity sc.at
+        hit == IF sc.kind = "rowmod" THEN me.pend.at = "uri" /\ me.pend.val.t = "r" /\ me.pend.val.n % 2 = sc.at
+               ELSE sc.at = k1
         entry == [req |-> Step(s, i).name, val |-> me.pend.val, at |-> me.pend.at, gap |-> me.lastSleep]
         s1 == [s EXCEPT !.k = k1, !.log = Append(@, entry)]
     \* no response at all (status line cut / connection closed after the request was read, with zero response bytes):
     \* the step fails, it is NOT sent again - the target sees it exactly once
     IN IF hit /\ sc.kind \in {"transport", "eof"} THEN FailF(s1, i, 0)
        ELSE [s1 EXCEPT !.inst[i].pc = "post",
-                       !.inst[i].pend.status = IF hit /\ sc.kind = "status" THEN 418 ELSE 200,
+                       !.inst[i].pend.status = IF hit /\ sc.kind \in {"status", "rowmod"} THEN (IF IsGrpc(s) THEN 404 ELSE 418) ELSE 200,
                        !.inst[i].pend.k = k1,
                        \* "trunc": status and headers arrive, the body ends before its Content-Length
                        !.inst[i].pend.trunc = (hit /\ sc.kind = "trunc")]
@@ -237,13 +262,17 @@ PostF(s, i) ==
                  [] d.cap = "hdr"  -> Val("h", me.pend.k)
                  [] d.cap = "xpath" -> Val("x", me.pend.k)
                  [] d.cap = "jsonnum" -> Val("n", me.pend.k)     \* the JSON number 1000000 + k
+                 [] d.cap = "grpc" -> Val("g", me.pend.k)        \* field `hello` of the reply message
+        \* grpc: an error status has no reply message - nothing is stored under request.<name>.postprocessor
+        captured == ~IsGrpc(s) \/ me.pend.status = 200
         assertFails == d.assert /\ me.pend.status # 200
         last == me.pos >= Len(me.steps)
     \* the body is read (or drained) before any postprocessor runs: a body that cannot be read fails the step -
     \* with or without postprocessors - and the sample keeps the status that was received
-    IN IF me.pend.trunc \/ assertFails THEN FailF(s, i, me.pend.status)
+        grpcAborts == GrpcAbortOnStatus /\ IsGrpc(s) /\ me.pend.status # 200
+    IN IF me.pend.trunc \/ assertFails \/ grpcAborts THEN FailF(s, i, me.pend.status)
        ELSE [s EXCEPT !.samples = Append(@, Sample(s, i, me.pend.status, FALSE)),
-                      !.inst[i] = [@ EXCEPT !.vs[nm].hasPost = TRUE, !.vs[nm].tok = tok,
+                      !.inst[i] = [@ EXCEPT !.vs[nm].hasPost = captured, !.vs[nm].tok = IF captured THEN tok ELSE NoVal,
                                             !.lastSleep = Step(s, i).sleep,
                                             !.pc = IF last THEN "idle" ELSE "pre",
                                             !.pos = IF last THEN @ ELSE @ + 1]]
@@ -317,6 +346,18 @@ TotalW(c) == LET RECURSIVE Sum(_)
 Proportional ==
     (Len(st.cs.scens) > 1 /\ st.taken > 0 /\ st.taken % Len(st.ring) = 0) =>
         \A j \in 1..Len(st.cs.scens) : ShotsOf(st, j) * TotalW(st.cs) = EffW(st.cs.scens[j].weight) * st.taken
+
+\* grpc/scenario: an error status of the peer does not end the shot unless the call has an assert/response postprocessor:
+\* with a status script that hits a call without assertion (and no other failure) every listed call is made
+GrpcGoesOn ==
+    (NInst = 1 /\ Done(st) /\ IsGrpc(st) /\ st.cs.script.kind = "status" /\ st.cs.script.at <= Len(st.log)
+       /\ ~st.cs.reqs[st.log[st.cs.script.at].req].assert
+       /\ \A j \in 1..Len(st.samples) : st.samples[j].proto \in {200, 404})
+    => [j \in 1..Len(st.log) |-> st.log[j].req] = RingLog(st.cs, st.ring, st.cs.shots)
+\* templaters: a character html/template escapes never reaches the target raw through the html templater, and is never
+\* escaped by the text templater
+EscapingOK == st.cs.special =>
+    \A j \in 1..Len(st.log) : st.log[j].val.t # (IF st.cs.tmpl = "html" THEN "r<" ELSE "r&lt;")
 
 \* C19: no response makes the shot panic; after any response the instance takes the next ammo
 NoPanic == st.panics = 0
